@@ -194,8 +194,13 @@ where
 
 		t.amount_debited = amount_debited;
 
-		// store extra payment proof info, if required
-		if let Some(ref p) = slate.payment_proof {
+		// store extra payment proof info, if required: the recipient the proof was requested
+		// from at initiation (the slate handed in may be the recipient's reply, whose proof
+		// fields are the recipient's to write)
+		let requested = context
+			.payment_proof_recipient
+			.or(slate.payment_proof.as_ref().map(|p| p.receiver_address));
+		if let Some(receiver_address) = requested {
 			let sender_address_path = match context.payment_proof_derivation_index {
 				Some(p) => p,
 				None => {
@@ -212,8 +217,12 @@ where
 			)?;
 			let sender_address = OnionV3Address::from_private(&sender_key.0)?;
 			t.payment_proof = Some(StoredProofInfo {
-				receiver_address: p.receiver_address,
-				receiver_signature: p.receiver_signature,
+				receiver_address,
+				receiver_signature: slate
+					.payment_proof
+					.as_ref()
+					.filter(|p| p.receiver_address == receiver_address)
+					.and_then(|p| p.receiver_signature),
 				sender_address: sender_address.to_ed25519()?,
 				sender_address_path,
 				sender_signature: None,
